@@ -131,6 +131,7 @@ def is_abandoned(data, path):
 # listed in known_findings.json under the fingerprint `mutation-overlap-background` and also counted
 # in the evidence (`serial_background_overlaps`).
 STRICT_BACKGROUND = True
+NESTED_FP = "mutation-overlap:nested-gather-returns-before-cancelled-children-settle"
 
 
 def mutation_serial(case, events, data, root_order):
@@ -173,6 +174,52 @@ def mutation_serial(case, events, data, root_order):
                 asked.add(e[2])
         return False
 
+    def finished_at(h2):
+        if "B" in h2:
+            return h2.get("E", inf)
+        return min(h2.get("R", inf), h2.get("C", inf))
+
+    def nested_gather(seq, h, nj):
+        """The late cancelled awaitable sits below a NESTED gather: gather_with_cancel cancels its
+        awaitables in one synchronous burst (consecutive C events); the gather that failed is at
+        the common prefix of the awaitables completed in the same tick (one of them triggered the
+        failure) and of the burst.
+        If the late one shares its direct-child subtree of that gather with another awaitable of
+        the burst that HAD finished in time, the inner gather of that subtree returned after its
+        first cancelled child (asyncio.gather does, and `except Exception` does not see the
+        CancelledError), which is the known defect; otherwise the failing gather itself did not
+        wait for its own direct child (generic mutation-overlap)."""
+        c = h.get("C")
+        if c is None:
+            return False
+        lo = hi = c
+        while lo - 1 >= 0 and events[lo - 1][0] == "C":
+            lo -= 1
+        while hi + 1 < len(events) and events[hi + 1][0] == "C":
+            hi += 1
+        burst = [events[n][1] for n in range(lo, hi + 1)]
+        paths = [info[b]["path"] for b in burst]
+        # the completions of the same tick: one of them triggered the failure
+        for n in range(lo - 1, -1, -1):
+            if events[n][0] == "T":
+                break
+            if events[n][0] == "R":
+                paths.append(events[n][3])
+        common = list(paths[0])
+        for p in paths[1:]:
+            k = 0
+            while k < len(common) and k < len(p) and common[k] == p[k]:
+                k += 1
+            common = common[:k]
+        path = h["path"]
+        if len(path) <= len(common):
+            return False
+        sub = path[: len(common) + 1]
+        for b in burst:
+            if b != seq and info[b]["path"][: len(sub)] == sub and finished_at(info[b]) < nj:
+                return True
+        return False
+
     for n, e in enumerate(events):
         # the type a predicate handle was asked for: the I event right before its creation
         if e[0] == "H" and e[4] == "ito" and n > 0 and events[n - 1][0] == "I":
@@ -191,7 +238,9 @@ def mutation_serial(case, events, data, root_order):
                 continue
             cancelled = min(h.get("C", inf), h.get("X", inf)) < nj
             detail = {"awaitable": path, "kind": h["kind"], "started": rkj, "cancelled_before": cancelled}
-            if cancelled:
+            if cancelled and nested_gather(seq, h, nj):
+                out.append((NESTED_FP, f"root field {rkj} started before a cancelled resolver below a nested gather of root field {path[0]} had finished unwinding (a sibling in the same nested gather had finished)", detail))
+            elif cancelled:
                 out.append(("mutation-overlap", f"root field {rkj} started before a cancelled resolver of root field {path[0]} had finished unwinding", detail))
             elif is_abandoned(data, path) or discarded_predicate(h, nj):
                 background.append(detail)
@@ -213,4 +262,9 @@ def mutation_serial(case, events, data, root_order):
                     out.append(("mutation-overlap", f"new work in the subtree of root field {path[0]} after root field {rkj} started", detail))
     if STRICT_BACKGROUND and background:
         out.append(("mutation-overlap-background", "a root field started while abandoned (never cancelled) work of an earlier root field was pending", background[:3]))
-    return out[:5], background
+    kept, count = [], {}
+    for item in out:
+        count[item[0]] = count.get(item[0], 0) + 1
+        if count[item[0]] <= 3:
+            kept.append(item)
+    return kept, background
